@@ -22,7 +22,6 @@ Len = z3.Length
 
 klass(KEY, fields=dict(K1=TBytes, K2=TBytes), construct="SSE2Key({K1}, {K2})")
 inline(KEY + ".__init__")
-CLASSES[TOK].fields = dict(t=IL)          # the token is a list of integers (positions in I), not of byte strings
 klass(CFG, fields=dict(param_k=TInt, param_l=TInt, param_n=TInt, param_max=TInt, param_s=TInt, param_k_bits=TInt, param_l_bits=TInt,
                        param_log2_n_plus_max=TInt, param_log2_n_plus_max_bytes=TInt, prp_pi=FPE.BPRPT),
       invariant=["self.param_k >= 1", "self.param_l >= 1", "self.param_n >= 1", "self.param_max >= 0",
@@ -51,17 +50,7 @@ lemma("vals_upto_len", [_I, _t, _k], Len(vals_upto(_I, _t, _k)) == z3.If(_k <= 0
 # ---- the PRP as a function with an inverse (what C15 proves about the real cipher, restated at specification level) -----------------
 _kb = z3.Const("s2_kb", BYTES)
 _R, _n, _v, _wv, _L2, _j = z3.Ints("s2_R s2_n s2_v s2_wv s2_L2 s2_j")
-prpv = specfn("prpv", [TBytes, TInt, TInt, TInt], TInt, opaque=True, macro=True,
-              doc="value of BitwiseFPEPRP(key bytes, rounds)(message of n bits with value v): the Feistel state formula of C15")
-
-
-def _prpv_def(kb, R, n, v):
-    h = (n + 1) / 2
-    a0 = (v / pow2(h), n - h, v % pow2(h), h)
-    return FPE.fav(kb, R, *a0) * pow2(FPE.fbl(kb, R, *a0)) + FPE.fbv(kb, R, *a0)
-
-
-prpv.define = _prpv_def
+prpv = FPE.prp_value      # value of BitwiseFPEPRP(key bytes, rounds)(message of n bits with value v): the Feistel state formula of C15
 prpinv = specfn("prpinv", [TBytes, TInt, TInt, TInt], TInt, doc="inverse of prpv in its last argument")
 axiom("PRP_inverse", [_kb, _R, _n, _v],
       Imp(And(_n >= 2, _R >= 0, _R % 2 == 0, 0 <= _v, _v < pow2(_n)),
@@ -83,7 +72,7 @@ contract(SCH + "._Trap", params=dict(self=SCHT, K=KEYT, keyword=TBytes), returns
          requires=VALID + ["len(K.K1) == self.config.param_k", "len(keyword) <= self.config.param_l"],
          ensures=["result.t == toks(%s, %s, %s, b2i(keyword), %s, self.config.param_n)" % (KB, RR, ML, L2),
                   "len(result.t) == self.config.param_n"],
-         lemmas=["toks_len", "b2i_bound", "bitlen_le", "pow2_mono", "concat_fits"], reveal=["prpv"], unfold_only=["toks"],
+         lemmas=["toks_len", "b2i_bound", "bitlen_le", "pow2_mono", "concat_fits"], unfold_only=["toks"],
          loops={0: dict(invariant=["len(t) == it", "t == toks(%s, %s, %s, b2i(keyword), %s, it)" % (KB.replace("K.K1", "K1"), RR, ML, L2)],
                         hints=[("bitlen_le", ["b2i(K1)", "self.config.param_k_bits"]), ("pow2_mono", ["8 * len(K1)", "self.config.param_k_bits"]),
                                ("bitlen_le", ["b2i(keyword)", "self.config.param_l_bits"]),
@@ -126,6 +115,17 @@ lemma("toks_nth", [_kb, _R, _n, _wv, _L2, _k, _k2],
       Imp(And(0 <= _k2, _k2 < _k), toks(_kb, _R, _n, _wv, _L2, _k)[_k2] == prpv(_kb, _R, _n, _wv * pow2(_L2) + _k2 + 1)),
       patterns=None, induct=("int", _k), inst=[[_kb, _R, _n, _wv, _L2, _k - 1, _k2]], uses=["toks_len"], no_auto=True, unfold_only=["toks"])
 
+# congruence across an arithmetic equality: the key bytes i2b(value, (length + 7) // 8) of two Bitsets with provably equal value and
+# length are equal (the solver does not always propagate the arithmetic equality of the lengths into the term graph by itself)
+_x2, _a2, _b2 = z3.Ints("s2_x2 s2_a2 s2_b2")
+lemma("i2b_arg_cong", [_x, _x2, _a2, _b2], Imp(And(_x == _x2, _a2 == _b2), i2b(_x, (7 + _a2) / 8) == i2b(_x2, (7 + _b2) / 8)),
+      patterns=[z3.MultiPattern(i2b(_x, (7 + _a2) / 8), i2b(_x2, (7 + _b2) / 8))], no_auto=True, unfold_only=[])
+
+_kb2 = z3.Const("s2_kb2", BYTES)
+_n2, _v2 = z3.Ints("s2_n2 s2_v2")
+lemma("prpv_arg_cong", [_kb, _kb2, _R, _n, _n2, _v, _v2], Imp(And(_kb == _kb2, _n == _n2, _v == _v2), prpv(_kb, _R, _n, _v) == prpv(_kb2, _R, _n2, _v2)),
+      patterns=[z3.MultiPattern(prpv(_kb, _R, _n, _v), prpv(_kb2, _R, _n2, _v2))], no_auto=True, unfold_only=[])
+
 # ---- Repr: the index holds exactly the postings, addressed by pi(K1, w || j) (plus filler entries under the all-zero keyword) --------
 ODB = sort(TOpt(BL))
 _dkD = speclib.dkeys_fn(DBT)
@@ -143,38 +143,76 @@ def _s2_valid_db(DB, l, n):
 s2_valid_db.define = _s2_valid_db
 
 
-def _s2_inv(I, kb, R, ML, L2, DB, kidx, jcur):
-    """entries with a non-zero keyword part: present exactly for the postings (w, j) of the keywords before position kidx and the
-    first jcur postings of keyword kidx, holding DB[w][j-1]"""
-    x = z3.Int("x_")
+def _s2_body(x, I, kb, R, ML, L2, DB, kidx, jcur):
     m = prpinv(kb, R, ML, x)
     wv, j = m / pow2(L2), m % pow2(L2)
     w = i2b_min(wv)
     ok = And(x == prpv(kb, R, ML, m), 0 <= m, m < pow2(ML), b2i(w) == wv, db_has(DB, w), 1 <= j, j <= Len(db_list(DB, w)),
              Or(_kpD(DB, w) < kidx, And(_kpD(DB, w) == kidx, j <= jcur)))
     cell = z3.Select(I, x)
-    return z3.ForAll([x], Imp(wv != 0, And(Not(OB.is_none(cell)) == ok, Imp(ok, OB.val(cell) == db_list(DB, w)[j - 1]))),
-                     patterns=[z3.Select(I, x)])
+    return Imp(wv != 0, And(Not(OB.is_none(cell)) == ok, Imp(ok, OB.val(cell) == db_list(DB, w)[j - 1])))
+
+
+def _s2_inv(I, kb, R, ML, L2, DB, kidx, jcur):
+    """entries with a non-zero keyword part: present exactly for the postings (w, j) of the keywords before position kidx and the
+    first jcur postings of keyword kidx, holding DB[w][j-1]"""
+    x = z3.Int("x_")
+    return z3.ForAll([x], _s2_body(x, I, kb, R, ML, L2, DB, kidx, jcur), patterns=[z3.Select(I, x)])
+
+
+def s2_inv_at(args_src, kidx_src, jcur_src, Iname="I"):
+    """the invariant as a clause: assumed in its quantified form, proved for one arbitrary (fresh) position x"""
+    def f(E, env):
+        def ev(src):
+            v = E.spec_eval(src, env, old=True)
+            return v.t if isinstance(v, SV) else E.to_sv(v).t
+        Iv = env[Iname]
+        It = E.cell(Iv)[1].t if isinstance(Iv, Ref) and E.cell(Iv)[0] == "dict" else (
+            z3.K(z3.IntSort(), OB.none) if isinstance(Iv, Ref) else Iv.t)
+        kb, R, ML_, L2_ = [ev(a) for a in args_src]
+        Dv = env["database"]
+        DBt = E.cell(Dv)[1].t if isinstance(Dv, Ref) else Dv.t
+        kidx = z3.Length(_dkD(DBt)) if kidx_src is None else ev(kidx_src)
+        jcur = ev(jcur_src)
+        if E.spec_role == "assume":
+            n = E.fresh("arg_I", IT)
+            E.assume(n.t == It)
+            return SV(_s2_inv(n.t, kb, R, ML_, L2_, DBt, kidx, jcur), TBool)
+        x0 = E.fresh("any_pos", TInt).t
+        return SV(_s2_body(x0, It, kb, R, ML_, L2_, DBt, kidx, jcur), TBool)
+    return f
 
 
 s2_inv = specfn("s2_inv", [IT, TBytes, TInt, TInt, TInt, DBT, TInt, TInt], TBool)
 s2_inv.define = _s2_inv
+s2_inv.name_args = True
 s2_repr = specfn("s2_repr", [IT, TBytes, TInt, TInt, TInt, DBT], TBool,
                  doc="Repr: I[pi(K1, w || j)] == DB[w][j-1] for every posting, and nothing else under a non-zero keyword part")
 s2_repr.define = lambda I, kb, R, ML, L2, DB: _s2_inv(I, kb, R, ML, L2, DB, Len(_dkD(DB)), z3.IntVal(0))
+s2_repr.name_args = True
 CFG_ARGS = "%s, %s, %s, %s" % (KB, RR, ML, L2)
 CFG_ARGS_L = CFG_ARGS.replace("K.K1", "K1")
+ARGS_L = [KB.replace("K.K1", "K1"), RR, ML, L2]
 contract(SCH + "._Enc", params=dict(self=SCHT, K=KEYT, database=DBT), returns=EDBT,
          requires=VALID + ["len(K.K1) == self.config.param_k", "s2_valid_db(database, self.config.param_l, self.config.param_n)"],
          raises={"ValueError": "True", "OverflowError": "True"},      # only from the filler phase (counters that do not fit)
          ensures=["s2_repr(dmap(result.I), %s, database)" % CFG_ARGS],
          locals={"I": IT, "document_count_dict": TDict(TBytes, TInt)},
-         lemmas=["PRP_inverse", "kw_inverse", "b2i_bound", "bitlen_le", "pow2_mono", "concat_fits", "concat_high", "concat_low", "b2i_zeros"],
-         reveal=["prpv"], unfold_only=["s2_repr", "s2_inv", "s2_valid_db"],
-         loops={0: dict(invariant=["s2_inv(dmap(I), %s, database, it, 0)" % CFG_ARGS_L, "s_prime >= 0"]),
-                1: dict(invariant=["s2_inv(dmap(I), %s, database, _it0, it)" % CFG_ARGS_L, "s_prime >= 0"]),
-                2: dict(invariant=["s2_repr(dmap(I), %s, database)" % CFG_ARGS_L]),
-                3: dict(invariant=["s2_repr(dmap(I), %s, database)" % CFG_ARGS_L])},
+         lemmas=["PRP_inverse", "kw_inverse", "b2i_bound", "bitlen_le", "pow2_mono", "concat_fits", "concat_high", "concat_low", "b2i_zeros", "bitlen_ge", "zeros_len", "i2b_len", "b2i_nonneg", "bitlen_nonneg",
+                 "pow2_pos", "i2b_arg_cong", "prpv_arg_cong"],
+         only_lemmas=True, unfold_only=["s2_repr", "s2_inv", "s2_valid_db"],
+         loops={0: dict(invariant=[s2_inv_at(ARGS_L, "it", "0"), "s_prime >= 0"]),
+                1: dict(invariant=[s2_inv_at(ARGS_L, "_it0", "it"), "s_prime >= 0"],
+                        hints=[("PRP_inverse", ARGS_L[:3] + ["b2i(keyword) * pow2(%s) + it + 1" % L2]),
+                               ("pow2_mono", ["8 * len(keyword)", "self.config.param_l_bits"]),
+                               ("bitlen_le", ["it + 1", L2]),
+                               ("concat_fits", ["b2i(keyword)", "it + 1", "self.config.param_l_bits", L2]),
+                               ("concat_high", ["b2i(keyword)", "it + 1", L2]), ("concat_low", ["b2i(keyword)", "it + 1", L2])]),
+                2: dict(invariant=[s2_inv_at(ARGS_L, None, "0")]),
+                3: dict(invariant=[s2_inv_at(ARGS_L, None, "0")],
+                        hints=[("PRP_inverse", ARGS_L[:3] + ["n + it"]), ("bitlen_ge", ["n + it", L2]),
+                               ("concat_fits", ["0", "n + it", "self.config.param_l_bits", L2]),
+                               ("concat_high", ["0", "n + it", L2]), ("concat_low", ["0", "n + it", L2])])},
          no_runtime=True, props=["C01", "C02", "C04", "C07"])
 
 
